@@ -22,7 +22,7 @@ def run(ctx):
     ctx.rule = ("trees: DAGs of 1..120 nodes (shared NodePtrs and equal copies, atoms inline and on the heap, pools with many atoms of equal length, "
                 "> 62 atoms / pairs so that indices need 2-byte varints) x levels {0,1,2,7,2^32-1}, serializer bytes and all round-trip relations; "
                 "byte strings: every body of <= 2 bytes and every 3-byte body starting 00/01 after the magic prefix, grammar-built valid blobs (groups in any "
-                "order, negative length with count 1, -1 cons opcodes, pair back-references) and 30 kinds of grammar-aware mutation (length 0 / huge, count 0 / huge / "
+                "order, negative length with count 1, -1 cons opcodes, pair back-references) and 32 kinds of grammar-aware mutation (length 0 / huge, count 0 / huge / "
                 "negative, group and instruction counts off by one / huge / negative, atom and pair indices out of range, forward pair reference, stack underflow, "
                 "left-over stack, overlong varints, truncation, trailing bytes, bit flips, 0xff, missing or damaged magic), each with strict and lenient and "
                 "max_atom_len in {0, 1, 2^20, 2^63, longest declared length, that - 1}; non-trivial = a tree with a pair, or a byte string of >= 9 bytes")
